@@ -11,9 +11,12 @@ import (
 
 	"github.com/dominant-strategies/go-quai/common"
 	"github.com/dominant-strategies/go-quai/core/rawdb"
+	"github.com/dominant-strategies/go-quai/core/state"
 	"github.com/dominant-strategies/go-quai/core/types"
 	"github.com/dominant-strategies/go-quai/crypto/multiset"
+	"github.com/dominant-strategies/go-quai/crypto"
 	"github.com/dominant-strategies/go-quai/ethdb"
+	"github.com/dominant-strategies/go-quai/rlp"
 	"google.golang.org/protobuf/proto"
 )
 
@@ -339,5 +342,71 @@ func CheckHeadCommitment(nd *Node) (string, string) {
 	if err != nil || st == nil {
 		return "state-unopenable", fmt.Sprintf("state at head roots does not open: %v", err)
 	}
+	// "the EVM and ETX-set roots open to the account state and queue that later blocks use": every
+	// node of the account trie, of every storage trie and of the ETX-set trie, and every contract's
+	// code, must be retrievable (a root that resolves proves nothing about the rest)
+	if _, _, err := WalkState(st, head.EVMRoot(), head.EtxSetRoot()); err != nil {
+		return "state-incomplete", fmt.Sprintf("head %x #%d: %v", head.Hash().Bytes()[:6], head.NumberU64(Zone), err)
+	}
 	return "", ""
+}
+
+// WalkState visits every node of the account trie at evmRoot, of each account's storage trie and
+// of the ETX-set trie at etxRoot, and loads every non-empty code. It returns the number of
+// accounts and storage slots seen, or the first missing / undecodable item.
+func WalkState(st *state.StateDB, evmRoot, etxRoot common.Hash) (accounts, slots int, err error) {
+	db := st.Database()
+	tr, err := db.OpenTrie(evmRoot)
+	if err != nil {
+		return 0, 0, fmt.Errorf("account trie %x does not open: %v", evmRoot.Bytes()[:6], err)
+	}
+	it := tr.NodeIterator(nil)
+	for it.Next(true) {
+		if !it.Leaf() {
+			continue
+		}
+		accounts++
+		var acc state.Account
+		if e := rlp.DecodeBytes(it.LeafBlob(), &acc); e != nil {
+			return accounts, slots, fmt.Errorf("account leaf %x does not decode: %v", it.LeafKey()[:6], e)
+		}
+		addrHash := common.BytesToHash(it.LeafKey())
+		if acc.Root != types.EmptyRootHash && acc.Root != (common.Hash{}) {
+			str, e := db.OpenStorageTrie(addrHash, acc.Root)
+			if e != nil {
+				return accounts, slots, fmt.Errorf("storage trie %x of account %x does not open: %v", acc.Root.Bytes()[:6], addrHash.Bytes()[:6], e)
+			}
+			sit := str.NodeIterator(nil)
+			for sit.Next(true) {
+				if sit.Leaf() {
+					slots++
+				}
+			}
+			if e := sit.Error(); e != nil {
+				return accounts, slots, fmt.Errorf("storage trie of account %x is incomplete: %v", addrHash.Bytes()[:6], e)
+			}
+		}
+		if len(acc.CodeHash) > 0 && !bytes.Equal(acc.CodeHash, crypto.Keccak256(nil)) {
+			code, e := db.ContractCode(addrHash, common.BytesToHash(acc.CodeHash))
+			if e != nil || len(code) == 0 {
+				return accounts, slots, fmt.Errorf("code %x of account %x is missing: %v", acc.CodeHash[:6], addrHash.Bytes()[:6], e)
+			}
+		}
+	}
+	if e := it.Error(); e != nil {
+		return accounts, slots, fmt.Errorf("account trie is incomplete: %v", e)
+	}
+	if etxRoot != types.EmptyRootHash && etxRoot != (common.Hash{}) {
+		etr, e := st.ETXDatabase().OpenTrie(etxRoot)
+		if e != nil {
+			return accounts, slots, fmt.Errorf("ETX-set trie %x does not open: %v", etxRoot.Bytes()[:6], e)
+		}
+		eit := etr.NodeIterator(nil)
+		for eit.Next(true) {
+		}
+		if e := eit.Error(); e != nil {
+			return accounts, slots, fmt.Errorf("ETX-set trie is incomplete: %v", e)
+		}
+	}
+	return accounts, slots, nil
 }
